@@ -507,6 +507,8 @@ class SimTLSSocket(SimSocket):
         return len(self._st.record)
 
     def unwrap(self):
+        # the TLS closing handshake: writes close_notify and waits for the peer's - real I/O that can fail
+        self._st.sim.sock_unwrap(self._st)
         return self._inner
 
 
@@ -912,6 +914,25 @@ class Sim(object):
         self.log.append(("recv", st.sid, out, self.now, self.actor, self.ev_index,
                          getattr(st, "record_due", self.now)))
         return out
+
+    @_guard
+    def sock_unwrap(self, st):
+        self.log_op("tls_unwrap", st, None)
+        f = self.fault("unwrap")
+        if st.closed:
+            raise OSError(errno.EBADF, "Bad file descriptor")
+        if f:
+            self.raise_fault(f, st)
+        if st.broken:
+            self.raise_broken(st)
+        st.pump()
+        if st.inbox or st.record:
+            # the peer still has application data in flight
+            raise _real_ssl.SSLError(_real_ssl.SSL_ERROR_SSL, "[SSL: APPLICATION_DATA_AFTER_CLOSE_NOTIFY] application data "
+                                     "after close notify {0} %s")
+        if st.eof:
+            raise _real_ssl.SSLEOFError(_real_ssl.SSL_ERROR_EOF, "EOF occurred in violation of protocol")
+        st.tls = False          # the peer answered with its own close_notify
 
     @_guard
     def sock_shutdown(self, st, how):
